@@ -17,6 +17,8 @@ type knownFinding struct {
 	Text     string
 }
 
+var nSelected = 1 // harnesses of this run (the thorough wall-clock budget is shared between them)
+
 func loadKnown(verif string) ([]knownFinding, error) {
 	f, err := os.Open(filepath.Join(verif, "known_findings.txt"))
 	if err != nil {
@@ -92,6 +94,12 @@ func runSpec(l *Loaded, spec *CheckSpec, tier, only string, workers int, extra m
 	nViol := 0
 	replayOK := 0
 	os.MkdirAll(filepath.Join(verif, "replays"), 0o755)
+	nSelected = 0
+	for hi := range spec.Harnesses {
+		if only == "" || spec.Harnesses[hi].Name == only {
+			nSelected++
+		}
+	}
 	for hi := range spec.Harnesses {
 		h := &spec.Harnesses[hi]
 		if only != "" && h.Name != only {
